@@ -1,0 +1,5 @@
+//go:build !verif
+
+package lexer
+
+func verifInput(string) {}
